@@ -102,3 +102,15 @@ for _t in FX.ENTRIES:
     ORACLES["%s:valid" % _t] = gen_valid(_t)
     CHECKERS["%s:fault" % _t] = check_fault
     ORACLES["%s:fault" % _t] = gen_fault(_t)
+
+from suites import validators as _V  # noqa: E402
+for _k, _v in _V.CHECKERS.items():
+    CHECKERS["validator:" + _k] = _v
+    ORACLES["validator:" + _k] = _V.ORACLES[_k]
+
+
+def classify(suite, d):
+    r = _V.classify(suite.split(".", 1)[-1], d)
+    if r and ("validator:" + r[0]) in CHECKERS:
+        return "validator:" + r[0], r[1]
+    return None
